@@ -254,7 +254,11 @@ class Algebra:
 
     @cached_property
     def matrix_basis(self):
-        return matrix_rep(self.p, self.q, self.r, signature=self.signature)
+        blades = None
+        if self.basis:
+            # With a custom basis the blades have their own order and spelling (e.g. e31).
+            blades = [[int(ei, base=16) - self.start_index for ei in eJ[1:]] for eJ in self.canon2bin]
+        return matrix_rep(self.p, self.q, self.r, signature=self.signature, blades=blades)
 
     @cached_property
     def frame(self) -> list:
